@@ -246,9 +246,10 @@ def text_strategy():
 
     ident = st.sampled_from(["a", "x1", "foo", "int", "_b"])
     num = st.sampled_from(["1", "42", "0x1F", "1.5e+3"])
-    strbody = st.lists(st.sampled_from(["a", " ", "//", "/*", "*/", "'", "\\\"", "\\\\", "\\n", "#", "1"]), max_size=4).map("".join)
+    # escapes, also with a backslash-newline between the backslash and the escaped character
+    strbody = st.lists(st.sampled_from(["a", " ", "//", "/*", "*/", "'", "\\\"", "\\\\", "\\n", "#", "1", "\\\\\n\"", "\\\\\n\\", "\\\\\nn"]), max_size=4).map("".join)
     string = strbody.map(lambda b: '"' + b + '"')
-    chrbody = st.sampled_from(["a", "\\n", "\\'", '"', "\\\\", "/", "*", "0", "ab", "//", "/*"])
+    chrbody = st.sampled_from(["a", "\\n", "\\'", '"', "\\\\", "/", "*", "0", "ab", "//", "/*", "\\\\\n'", "\\\\\n\\"])
     char = chrbody.map(lambda b: "'" + b + "'")
     cbody = st.lists(st.sampled_from(["x", " ", "\n", "*", "/", "\"", "'", "//", "#", "\\", "* /", "/ *"]), max_size=6).map("".join).filter(lambda b: "*/" not in b)
     block = cbody.map(lambda b: "/*" + b + "*/")
